@@ -2,6 +2,7 @@ package notify
 
 import (
 	"context"
+	"time"
 
 	"github.com/prometheus/client_golang/prometheus"
 	"github.com/prometheus/common/model"
@@ -109,5 +110,66 @@ func VerifC15_Gating() {
 	} else {
 		vfAssert("active-passes-all", len(out2) == 1 && !isMuted)
 		vfReach("sent")
+	}
+}
+
+// VerifC15_GatingSequence: three successive flushes of one group through the real
+// active-time and mute-time stages (in pipeline order) with one shared group marker, on
+// a route with an active interval ("business", 09:00-17:00) and a mute interval
+// ("maintenance", 09:15-10:00), at three arbitrary increasing minutes of one day. At
+// every flush the alert is sent iff the tick lies in the active interval and outside the
+// mute interval, the marker names exactly the interval responsible, and the route's own
+// interval lists are what the configuration said, whatever the earlier flushes did.
+//
+//vf:quick unwind=12 decisions=300 paths=300000
+//vf:thorough unwind=12 decisions=400 paths=3000000
+//vf:expect reach=sent reach=muted reach=inactive
+func VerifC15_GatingSequence() {
+	ivs := map[string][]timeinterval.TimeInterval{
+		"business":    {{Times: []timeinterval.TimeRange{{StartMinute: 9 * 60, EndMinute: 17 * 60}}}},
+		"maintenance": {{Times: []timeinterval.TimeRange{{StartMinute: 9*60 + 15, EndMinute: 10 * 60}}}},
+	}
+	iv := timeinterval.NewIntervener(ivs)
+	mk := marker.NewGroupMarker()
+	m := NewMetrics(prometheus.NewRegistry(), featurecontrol.NoopFlags{})
+	a := &alert.Alert{}
+	a.Labels = model.LabelSet{"alertname": "A"}
+	// the route's options, handed to every flush of its groups
+	activeNames := []string{"business"}
+	muteNames := []string{"maintenance"}
+	l := promslog.NewNopLogger()
+	prev := -1
+	for f := 0; f < 3; f++ {
+		tick := vfCalendarTime("tick")
+		vfAssume(tick.Year() == 2024 && tick.Month() == time.May && tick.Day() == 6)
+		minute := tick.Hour()*60 + tick.Minute()
+		vfAssume(minute > prev)
+		prev = minute
+		ctx := WithRouteID(context.Background(), "route")
+		ctx = WithGroupKey(ctx, "gk")
+		ctx = WithNow(ctx, tick)
+		ctx = WithMuteTimeIntervals(ctx, muteNames)
+		ctx = WithActiveTimeIntervals(ctx, activeNames)
+		_, out, err := NewTimeActiveStage(iv, mk, m).Exec(ctx, l, a)
+		vfAssert("active-stage-ok", err == nil)
+		if len(out) > 0 {
+			_, out, err = NewTimeMuteStage(iv, mk, m).Exec(ctx, l, out...)
+			vfAssert("mute-stage-ok", err == nil)
+		}
+		inBusiness := minute >= 9*60 && minute < 17*60
+		inMaintenance := minute >= 9*60+15 && minute < 10*60
+		by, isMuted := mk.Muted("route", "gk")
+		switch {
+		case !inBusiness:
+			vfAssert("outside-the-active-interval-nothing-is-sent", len(out) == 0 && isMuted && len(by) == 1 && by[0] == "business")
+			vfReach("inactive")
+		case inMaintenance:
+			vfAssert("inside-the-mute-interval-nothing-is-sent", len(out) == 0 && isMuted && len(by) == 1 && by[0] == "maintenance")
+			vfReach("muted")
+		default:
+			vfAssert("active-and-not-muted-is-sent", len(out) == 1 && !isMuted)
+			vfReach("sent")
+		}
+		vfAssert("route-options-untouched", len(activeNames) == 1 && activeNames[0] == "business" && len(muteNames) == 1 && muteNames[0] == "maintenance")
 	}
 }
